@@ -183,7 +183,7 @@ class WSStream:
         self.config = config
         self.context = context
         self.task_group = task_group
-        self.response: WebsocketResponseStartEvent
+        self.response: Optional[WebsocketResponseStartEvent] = None
         self.scope: WebsocketScope
         self.send = send
         # RFC 8441 for HTTP/2 says use http or https, ASGI says ws or wss
@@ -274,7 +274,9 @@ class WSStream:
             elif (
                 message["type"] == "websocket.http.response.start"
                 and self.state == ASGIWebsocketState.HANDSHAKE
+                and self.response is None
             ):
+                build_and_validate_headers(message.get("headers", []))
                 self.response = message
             elif message["type"] == "websocket.http.response.body" and self.state in {
                 ASGIWebsocketState.HANDSHAKE,
